@@ -25,4 +25,16 @@ CANARIES = [
             read_version_frame(&mut recv_stream).await?;''', '''            let _ = &connection;''')]),
     dict(id='h-listener-no-preamble', unit=U, what='listener finishes the acknowledgement stream without writing the preamble', expect=['handshake::listener_sends_exactly_the_preamble'],
          edits=[('crates/anemo/src/network/wire.rs', '            write_version_frame(&mut send_stream, Version::V1).await?;\n            send_stream.finish()?;', '            send_stream.finish()?;')]),
+    dict(id='l-panic-on-cancelled-task', unit=U, what='a cancelled handler task panics the accept loop', expect=['InboundRequestHandler::start::accept_loop::body'],
+         edits=[(RH, 'if e.is_cancelled() {', 'if false {')]),
+    dict(id='l-drain-finished-tasks-in-arm', unit=U, what='the join arm waits for every in-flight handler before accepting again', expect=['InboundRequestHandler::start::accept_loop::arms_do_not_wait'],
+         edits=[(RH, """                        Ok(()) => {
+                            trace!("request handler task completed");
+                        },""", """                        Ok(()) => {
+                            while let Some(_other) = inflight_requests.join_next().await {}
+                        },""")]),
+    dict(id='l-ends-on-garbage-datagram', unit=U, what='an incoming datagram ends the accept loop', expect=['InboundRequestHandler::start::accept_loop::ends_only_on_connection_error', 'InboundRequestHandler::start::accept_loop::body'],
+         edits=[(RH, 'Ok(datagram) => trace!("incoming datagram of length: {}", datagram.len()),', 'Ok(datagram) => { let e = Error::msg(); break e; }')]),
+    dict(id='l-handler-for-other-limit', unit=U, what='handlers are built with the default configuration', expect=['InboundRequestHandler::start::accept_loop::handler_uses_configured_limit'],
+         edits=[(RH, 'BiStreamRequestHandler::new(&self.config, self.connection.clone()', 'BiStreamRequestHandler::new(&Config::default(), self.connection.clone()')]),
 ]
